@@ -54,6 +54,9 @@ func zzCompileAndRunHLSL(src string, in []uint32, wid [3]uint32, garbage []uint3
 	if perr != "" {
 		return nil, false
 	}
+	for _, dup := range prog.Dups {
+		zz.Fail("emitted HLSL redefines a name: " + dup)
+	}
 	prog.WorkgroupID, prog.WorkgroupSize, prog.Garbage, prog.Uniform = wid, [3]uint32{1, 1, 1}, garbage, zzUniformImage
 	out, rerr := prog.Run(entry, in)
 	zz.Assert(rerr == "", "emitted HLSL cannot be executed by the reference evaluator: "+rerr)
@@ -102,6 +105,9 @@ func zzCompileAndRunMSL(src string, in []uint32, wid [3]uint32, garbage []uint32
 	if perr != "" {
 		return nil, false
 	}
+	for _, dup := range prog.Dups {
+		zz.Fail("emitted MSL redefines a name: " + dup)
+	}
 	prog.WorkgroupID, prog.WorkgroupSize, prog.Garbage, prog.Uniform = wid, [3]uint32{1, 1, 1}, garbage, zzUniformImage
 	out, rerr := prog.Run(entry, in)
 	zz.Assert(rerr == "", "emitted MSL cannot be executed by the reference evaluator: "+rerr)
@@ -149,6 +155,9 @@ func zzCompileAndRunGLSL(src string, in []uint32, wid [3]uint32, garbage []uint3
 	zz.Assert(perr == "", "emitted GLSL is outside the reference grammar: "+perr)
 	if perr != "" {
 		return nil, false
+	}
+	for _, dup := range prog.Dups {
+		zz.Fail("emitted GLSL redefines a name: " + dup)
 	}
 	prog.WorkgroupID, prog.WorkgroupSize, prog.Garbage, prog.Uniform = wid, [3]uint32{1, 1, 1}, garbage, zzUniformImage
 	out, rerr := prog.Run(entry, in)
